@@ -1,6 +1,7 @@
 package harness
 
 import (
+	"bytes"
 	"fmt"
 	"reflect"
 	"strings"
@@ -17,11 +18,12 @@ import (
 
 // TokSpec is one token of a C10 sequence with its trimming.
 type TokSpec struct {
-	Kind    int    `json:"kind"` // 0 Rune '(' 1 Op "==" 2 Word "let" 3 Integer 4 String 5 Many1(b) 6 Any(a,ab) 7 Choice(',',Empty) 8 Empty 9 Choice(LeftTrim('(',Left),'[') 10 Choice(';',End()) 11 LeftTrim(Optional('!'))
+	Kind    int    `json:"kind"` // 0 Rune '(' 1 Op "==" 2 Word "let" 3 Integer 4 String 5 Many1(b) 6 Any(a,ab) 7 Choice(',',Empty) 8 Empty 9 Choice(LeftTrim('(',Left),'[') 10 Choice(';',End()) 11 LeftTrim(Optional('!')) 12 Optional(LeftTrim('!',Left))
 	Text    string `json:"text"`
 	Left    int    `json:"left"`              // -1: no LeftTrim, else the mode
 	Right   int    `json:"right"`             // -1: no RightTrim, else the mode
 	UseTrim bool   `json:"useTrim,omitempty"` // text.Trim(p) (both sides, spaces-and-newlines)
+	Inner   bool   `json:"inner,omitempty"`   // with both modes: LeftTrim(RightTrim(p, right), left) instead of RightTrim(LeftTrim(p, left), right)
 }
 
 // C10Case: tokens and the whitespace string of every gap (before the first, between, after the last).
@@ -119,6 +121,8 @@ func matchTok(d []byte, i int, ts TokSpec) (int, bool) {
 			e++
 		}
 		return e, e > i
+	case 12:
+		return i, true
 	case 11: // an optional '!' (the whitespace in front of it is the model's business)
 		if i < len(d) && d[i] == '!' {
 			return i + 1, true
@@ -199,6 +203,9 @@ func modelC10Paths(d []byte, toks []TokSpec) (accept bool, spans [][2]int) {
 		if ts.UseTrim {
 			left, right = 2, 2
 		}
+		if ts.Kind == 12 {
+			left = -1 // the trimming sits inside the Optional: with the '!' absent nothing is skipped
+		}
 		var next []path
 		for _, p := range paths {
 			cur := p.cur
@@ -251,6 +258,8 @@ func tokParser(ts TokSpec) parsley.Parser {
 		p = combinator.Many1(terminal.Op("b"))
 	case 6:
 		p = combinator.Any(terminal.Op("a"), terminal.Op("ab"))
+	case 12: // an optional, left-trimmed '!': the whitespace belongs to the '!' and stays when it is absent
+		return combinator.Optional(text.LeftTrim(terminal.Rune('!'), text.WsMode(ts.Left)))
 	case 11: // two results when the '!' is there: the match and the empty match
 		p = combinator.Optional(terminal.Rune('!'))
 	case 10:
@@ -271,6 +280,10 @@ func tokParser(ts TokSpec) parsley.Parser {
 	if ts.UseTrim {
 		return text.Trim(p)
 	}
+	if ts.Inner && ts.Left >= 0 && ts.Right >= 0 {
+		// the other nesting: the same runs, the same modes, the same verdicts (the left run is judged first)
+		return text.LeftTrim(text.RightTrim(p, text.WsMode(ts.Right)), text.WsMode(ts.Left))
+	}
 	if ts.Left >= 0 {
 		p = text.LeftTrim(p, text.WsMode(ts.Left))
 	}
@@ -289,13 +302,37 @@ type c10Model struct {
 	empty    []bool // the token matched nothing (an EMPTY node has one position: only its end is compared)
 }
 
-func modelC10(d []byte, toks []TokSpec) c10Model {
-	var m c10Model
+func modelC10(d []byte, toks []TokSpec) (m c10Model) {
 	cur := 0
+	// the furthest "was expecting !" an absent optional '!' has left behind: a whitespace error that
+	// lies before it is not what gets reported (on a tie the error recorded later - the whitespace
+	// error - stands)
+	optErr := -1
+	defer func() {
+		if m.wantErr != "" && optErr > m.wantOff {
+			// a not-found error lies further right than the whitespace error: which of the errors
+			// recorded further right is reported is C06's subject; here only "it fails" is required
+			m.wantErr, m.mismatch = "", true
+		}
+	}()
 	for _, ts := range toks {
 		left, right := ts.Left, ts.Right
 		if ts.UseTrim {
 			left, right = 2, 2
+		}
+		if ts.Kind == 12 {
+			// Optional(LeftTrim('!', mode)) in a source without any '!': the empty match where it stands
+			// (with a '!' somewhere the token has several readings and the path model decides)
+			m.spans = append(m.spans, [2]int{cur, cur})
+			m.empty = append(m.empty, true)
+			// its LeftTrim looked for the '!' behind the run; a violated mode moves that error back to
+			// the start of the run
+			if e, ok, _, _ := judgeRun(d, cur, ts.Left); ok && e > optErr {
+				optErr = e
+			} else if !ok && cur > optErr {
+				optErr = cur
+			}
+			continue
 		}
 		if ts.Kind == 9 {
 			// Choice(LeftTrim('(', mode), '['): the first alternative's whitespace error stands when
@@ -416,6 +453,12 @@ func checkC10(ci interface{}, st *Stats) error {
 		}
 	}
 	for _, t := range c.Toks {
+		if t.Inner && (t.Text == "" || t.Left < 0 || t.Right < 0 || t.UseTrim || t.Kind >= 9) {
+			return Discard{"the other nesting is only modelled around a token that consumes something"}
+		}
+		if t.Kind == 12 && (t.Left < 0 || t.Right >= 0 || t.UseTrim || bytes.Contains(d, []byte("!"))) {
+			return Discard{"an optional left-trimmed '!' is only modelled where it is absent"}
+		}
 		if t.Kind == 11 && (t.Left != 2 || t.Right >= 0 || t.UseTrim) {
 			return Discard{"an optional-bang token is left-trimmed in the never-failing mode only"}
 		}
@@ -597,7 +640,7 @@ func genC10(t *rapid.T) interface{} {
 	mode := func(label string) int { return rapid.SampledFrom([]int{0, 1, 1, 2, 2, 2, 3}).Draw(t, label) }
 	for i := 0; i < n; i++ {
 		ts := TokSpec{Left: -1, Right: -1}
-		ts.Kind = rapid.SampledFrom([]int{0, 1, 2, 3, 4, 0, 1, 2, 3, 4, 5, 5, 6, 7, 7, 8, 9, 9, 11, 11}).Draw(t, "kind")
+		ts.Kind = rapid.SampledFrom([]int{0, 1, 2, 3, 4, 0, 1, 2, 3, 4, 5, 5, 6, 7, 7, 8, 9, 9, 11, 11, 12, 12}).Draw(t, "kind")
 		switch ts.Kind {
 		case 0:
 			ts.Text = "("
@@ -613,6 +656,8 @@ func genC10(t *rapid.T) interface{} {
 			ts.Text = rapid.SampledFrom([]string{"b", "bb", "bbb"}).Draw(t, "bs")
 		case 6:
 			ts.Text = rapid.SampledFrom([]string{"a", "ab", "ab"}).Draw(t, "amb")
+		case 12:
+			ts.Text = "" // absent (the sources of this generator have a '!' only where kind 11 puts one)
 		case 11:
 			ts.Text = rapid.SampledFrom([]string{"!", ""}).Draw(t, "bang")
 		case 9:
@@ -629,11 +674,20 @@ func genC10(t *rapid.T) interface{} {
 			ts.Right = mode("rm")
 		case 2:
 			ts.Left, ts.Right = mode("lm"), mode("rm")
+			// (only around a token that consumes something: around an empty match the inner RightTrim's
+			// error lies where the LeftTrim's operand started, and LeftTrim then lets it pass)
+			ts.Inner = rapid.Bool().Draw(t, "innerNesting") && ts.Text != ""
 		case 3:
 			ts.UseTrim = true
 		}
 		if ts.Kind == 6 && ts.Right >= 0 {
 			ts.Right = 2
+		}
+		if ts.Kind == 12 {
+			ts.UseTrim, ts.Right = false, -1
+			if ts.Left < 0 {
+				ts.Left = mode("lm12")
+			}
 		}
 		if ts.Kind == 11 {
 			// LeftTrim(Optional('!')) in the mode no run violates; nothing on the right (Optional hands
